@@ -188,6 +188,14 @@ func (n *nativeRunner) ensureOverlay() error {
 		}
 		repl[filepath.Join(n.repo, dir, "zz_verif_replay_test.go")] = gen
 	}
+	// the latency measurement reads the clock through internal/veriftime (controllable by the harness)
+	if src, err := os.ReadFile(filepath.Join(n.repo, "models", "signed_latency.go")); err == nil && bytes.Contains(src, []byte("\t\"time\"\n")) {
+		dst := filepath.Join(n.work, "time_signed_latency.go")
+		nb := bytes.Replace(src, []byte("\t\"time\"\n"), []byte("\ttime \"github.com/aukilabs/hagall/internal/veriftime\"\n"), 1)
+		if os.WriteFile(dst, nb, 0o644) == nil {
+			repl[filepath.Join(n.repo, "models", "signed_latency.go")] = dst
+		}
+	}
 	b, _ := json.Marshal(map[string]interface{}{"Replace": repl})
 	n.overlay = filepath.Join(n.work, "overlay.json")
 	return os.WriteFile(n.overlay, b, 0o644)
